@@ -12,6 +12,9 @@ CHECKS = {
  "C02": dict(engine="SIM", design="§4 C02", technique="stateless deviation-bounded exhaustive search over environment schedules and exhaustive fault offsets under an unmodified worker event loop with interposed syscalls and virtual time",
    text="343 scenarios through an unmodified worker: each routing outcome (404/401/503), connect refused, backend garbage (502), silent backend (504 after back_timeout of virtual time), client stalling in its head (408), backend closing between keep-alive requests, and the backend closing / resetting after every byte offset j of a 147-byte response, as first and as second request of a connection, each under every schedule with at most 1 deviation: exactly one complete answer with the status matching the cause, or an explicit abort once the response has started - never a complete-looking truncated body, never late, sibling exchange intact.",
    note="HTTP/1.1 to HTTP/1.1 pair only so far. Connect stalls (SYN black hole) cannot be produced on loopback. When the backend dies inside the body before anything was relayed the worker keeps the client waiting for front_timeout and then closes without a byte: accepted by the oracle (not beyond the configured timeouts), noted in DESIGN.md."),
+ "C03": dict(engine="ENUM+SIM", design="§4 C03", technique="bounded-exhaustive enumeration of a lattice of request framing / syntax mutations, each executed through an unmodified worker under every explored segmentation and one I/O deviation, with an independent canonical RFC 9112 reader as the backend",
+   text="281 HTTP/1.1 client byte strings (request-line, Host, Content-Length, Transfer-Encoding, both framings, chunked-body syntax, field syntax, valid pipelines; every smuggling shape spellable in HTTP/1.1: CL.TE, TE.CL, TE.TE obfuscations, duplicate and signed lengths, integer wrap, obs-fold, bare LF / CR, NUL and control bytes, whitespace before the colon, Connection-nominated framing headers, forbidden trailers), each followed by marker requests, go through an unmodified worker to a backend that is an independent canonical RFC 9112 reader; the client's write is cut at line/colon boundaries (quick) or at every byte (thorough), plus one short or refused read / write. Every backend connection must parse canonically (one simplest-form framing header, one Host, no control bytes / obs-fold / bare LF), every request found there must carry a Sozu-Id sozu generated (a request sozu itself understood), canonical client input must be forwarded with the same method, target, authority and body in the same order, and the response stream must be well formed.",
+   note="HTTP/1.1 frontend and backend only: the HTTP/2 halves of C03 (pseudo-header placement, Content-Length vs DATA, connection-specific fields) need the H2 actors. 'Rejected' is not required to be a 400: closing without forwarding is accepted. Chunk extensions and trailers that sozu refuses or drops are a C01/C02 matter, not flagged here."),
  "C01": dict(engine="SIM", design="§4 C01", technique="stateless deviation-bounded exhaustive search over environment schedules (short/would-block reads and writes, peer segmentation, readiness order) under an unmodified worker event loop with interposed syscalls and virtual time",
    text="An unmodified sozu_lib Server::run() proxies between scripted HTTP/1.1 clients and backends over real loopback sockets while epoll_wait/read/write/clock/getrandom are interposed: for 108 (quick) / 250+ (thorough) scenarios (framing x direction x sizes straddling buffer and frame boundaries x buffer_size x keep-alive) every schedule with at most 1 (quick) / 2 (thorough) deviations is executed; request bodies at the backend and response bodies at the client must equal what was sent, end cleanly, and complete without any timer having fired.",
    note="HTTP/1.1 to HTTP/1.1 pair only so far (H2/TLS pairs need the TLS + H2 actors). The simulated kernel only produces behaviours a Linux kernel may produce; EINTR/ENOBUFS and real TCP timing are not modelled. Six known findings, all on close-delimited responses."),
@@ -57,7 +60,6 @@ CHECKS = {
 }
 
 PLANNED = {
- "C03": "SIM/ENUM check not built yet; planned, see DESIGN.md §4 C03",
  "C13": "SIM engine not built yet; planned, see DESIGN.md §4 C13",
  "C14": "SIM engine not built yet; planned, see DESIGN.md §4 C14",
 }
